@@ -114,14 +114,17 @@ def closure_files(meta):
             text = open(os.path.join(COQ, f)).read()
         except OSError:
             continue
-        for m in re.finditer(r"From\s+AV\s+Require\s+(?:Import|Export)?\s*([^.]*(?:\.[A-Za-z_][^.\s]*)*)\s*\.", text):
-            for mod in m.group(1).split():
-                cand = "theories/" + mod.replace(".", "/") + ".v"
-                if os.path.exists(os.path.join(COQ, cand)):
-                    todo.append(cand)
-        for m in re.finditer(r"Require\s+(?:Import|Export)?\s+((?:AV\.[A-Za-z0-9_.]+\s*)+)\.", text):
-            for mod in m.group(1).split():
-                cand = "theories/" + mod[3:].replace(".", "/") + ".v"
+        code = re.sub(r"\(\*.*?\*\)", "", text, flags=re.S)
+        for m in re.finditer(r"(?:From\s+(\w+)\s+)?Require\s+(?:Import\s+|Export\s+)?(.*?)\.(?=\s|$)", code, flags=re.S):
+            prefix, mods = m.group(1), m.group(2).split()
+            for mod in mods:
+                if prefix == "AV":
+                    rel = mod
+                elif prefix is None and mod.startswith("AV."):
+                    rel = mod[3:]
+                else:
+                    continue
+                cand = "theories/" + rel.replace(".", "/") + ".v"
                 if os.path.exists(os.path.join(COQ, cand)):
                     todo.append(cand)
     return sorted(seen)
